@@ -57,6 +57,7 @@ type Exec struct {
 	sweepSafe     bool // generate safety obligations
 	closureByTerm map[string]*closureRec
 	pend          []*pendingOb
+	frozen        *MemState
 }
 
 type closureRec struct {
@@ -967,7 +968,11 @@ func (fr *Frame) unop(x *ssa.UnOp) {
 	case token.MUL:
 		fr.nilCheck(a, x.X, x.Pos(), "load")
 		et := x.X.Type().Underlying().(*types.Pointer).Elem()
-		fr.set(x, ex.load(fr.curMem, et, a.T))
+		m := fr.curMem
+		if g := rootGlobal(x.X); g != nil && ex.S.ConstGlobals[g.Pkg.Pkg.Path()+"."+g.Name()] && ex.frozen != nil {
+			m = ex.frozen // never-reassigned package-level variable: read its initial value
+		}
+		fr.set(x, ex.load(m, et, a.T))
 		if v, ok := fr.vals[x]; ok {
 			ex.typeAssume(v, x.Type(), fr.curReach, false)
 		}
@@ -1196,4 +1201,19 @@ func (fr *Frame) panicOb(x *ssa.Panic) {
 		}
 	}
 	ex.oblige("safe", "panic", allowed, fr.curReach, "explicit panic reachable", x.Pos(), []string{"C19"})
+}
+
+func rootGlobal(v ssa.Value) *ssa.Global {
+	for {
+		switch x := v.(type) {
+		case *ssa.Global:
+			return x
+		case *ssa.FieldAddr:
+			v = x.X
+		case *ssa.IndexAddr:
+			v = x.X
+		default:
+			return nil
+		}
+	}
 }
